@@ -43,8 +43,9 @@ SQ6 = 6e-7              # sq(...) rounds per-vector values to 6 decimals before 
 
 def make_condition(case, variant=0):
     """A (nested lists with [re, im] integer leaves, unit 1/AS) -> (ndarray, conditiontype).
-    variant 1 renders the same values in another dtype that represents them exactly
-    (int64 for integral real fields, complex64 for complex ones)."""
+    Variants render the same values in another dtype / memory layout that represents them exactly:
+      1  int64 for integral real fields, complex64 for complex ones
+      3  float32 for real fields (values are small dyadic numbers there), a strided (non-contiguous) view for complex ones"""
     kind, AS = case["kind"], case["AS"]
     a = np.array(case["A"], dtype=float)
     re, im = a[..., 0], a[..., 1]
@@ -55,12 +56,16 @@ def make_condition(case, variant=0):
         arr = (re + 1j * im) / AS
         if variant == 1:
             arr = arr.astype(np.complex64)
+        elif variant == 3:
+            big = np.zeros((2 * arr.shape[0],) + arr.shape[1:], dtype=arr.dtype)
+            big[::2] = arr
+            arr = big[::2]
     else:
-        if kind == "float" and np.any(im != 0):
-            raise MachineryError("real field with imaginary leaves")
         arr = re / AS
         if variant == 1 and AS == 1:
             arr = arr.astype(np.int64)
+        elif variant == 3 and AS in (1, 2):
+            arr = arr.astype(np.float32)
     return arr, ctype
 
 
@@ -112,8 +117,9 @@ def call_sq(snap, qvector, cond):
 # comparison of a returned frame with the spec's case (both directions)
 # --------------------------------------------------------------------------
 
-def compare_gr(case, df):
-    """-> (clause, detail) of the first disagreement or None; sets case['_nontrivial'], case['_partial']."""
+def compare_gr(case, df, single=False):
+    """-> (clause, detail) of the first disagreement or None; sets case['_nontrivial'], case['_partial'].
+    single: the field was given in single precision (its moments carry single-precision rounding)."""
     nb = case["nbins"]
     cols = list(df.columns)
     if cols != case["cols"]:
@@ -146,7 +152,10 @@ def compare_gr(case, df):
         if case["norm_defined"]:
             en = ev(case["norm_formula"], {"gA": ea})
             on = float(df["gA_norm"].iloc[k])
-            if not (abs(on - en) <= 1e-9 + 1e-9 * abs(en) + 1e-12 * slope * (1 + abs(ea))):
+            tol = 1e-9 + 1e-9 * abs(en) + 1e-12 * slope * (1 + abs(ea))
+            if single:
+                tol = 1e-5 * (1 + abs(en)) * (1 + slope * (1 + abs(ea)))
+            if not abs(on - en) <= tol:
                 return "NormalisedVariant:gA_norm", {"bin": k, "expected": en, "observed": on, "gA": ea}
     case["_nontrivial"], case["_partial"] = nontrivial, partial
     return None
@@ -327,7 +336,7 @@ def default_vectors(case, L):
 def replay_case(item):
     """Runs one emitted case through the real code.  -> dict(verdict, clause, detail, nontrivial, flags)."""
     idx, case = item
-    variant = 1 if idx % 3 == 1 else 0
+    variant = idx % 4 if idx % 4 in (1, 3) else 0
     out = {"verdict": "ok", "clause": None, "detail": None, "nontrivial": False, "kind": case["kind"], "m": case["m"],
            "conj": 0, "trans": 0, "rels": [r["name"] for r in case["rel"]], "partial": False, "variant": variant}
     info = {"dir": "A", "case": brief(case), "rendering_variant": variant}
@@ -346,9 +355,12 @@ def replay_case(item):
             pos0 = snap.positions.copy()
             info["dtype"] = str(cond.dtype)
             df = call_gr(snap, cond, ctype, case["ppp"], case["wn"] / case["S"])
-            r = compare_gr(case, df)
+            single = cond.dtype == np.float32
+            r = compare_gr(case, df, single)
             if r:
                 return bad(*r)
+            if single:      # the normalised variant of the returned gA: at single precision only
+                case["rel"] = [x for x in case["rel"] if x["name"] != "NormalisedVariant"]
             if not (np.array_equal(before, cond) and np.array_equal(pos0, snap.positions)):
                 return bad("InputUnchanged", None)
             r = relations_gr(case, snap, cond, ctype, df)
